@@ -261,9 +261,25 @@ def map_expr(e, fn, _d=0):
         e2 = ("cast", e[1], e[2], e[3], map_expr(e[4], fn, _d + 1))
     elif h in ("discr", "index", "await", "try"):
         e2 = (h, map_expr(e[1], fn, _d + 1))
+        if h == "try":
+            e2 = simplify_try(e2)
     else:
         e2 = e
     return fn(e2)
+
+
+def simplify_try(e):
+    """`x?` where every way of making x is Ok(p)/Some(p), Err(..)/None or the residual of another `?`: the value is p"""
+    x = e[1]
+    xal = x[1] if x[0] == "phi" else (x,)
+
+    def residual(y):
+        return y[0] == "call" and y[1] == "std::ops::FromResidual::from_residual"
+    if all((y[0] == "agg" and y[2] in ("Ok", "Some", "Err", "None")) or residual(y) for y in xal) and not all(residual(y) for y in xal):
+        outs = [y[3][0][1] for y in xal if not residual(y) and y[2] in ("Ok", "Some") and y[3]]
+        if outs:
+            return mkphi(tuple(outs))
+    return e
 
 
 def expand_params(F, X, e, depth=3):
